@@ -167,6 +167,7 @@ def run(ctx):
                     res.violation("C15:dir-info-not-menu", "+INFO lines of a '$' listing differ from the plain menu lines", {"dir": sel},
                                   observed=infos[:4], required=menu[:4], replay={"name": "dir", "data_len": 0, "sidecars": {}})
         _virtual_items(ctx, res)
+        _decompressed_items(ctx, res)
         outs = ctx.driver.run(model_lines)
         for (inp, impl), o in zip(checks, outs):
             res.evaluations += 1
@@ -265,6 +266,51 @@ def _virtual_items(ctx, res):
                         if infos != menu:
                             res.violation("C15:dir-info-not-menu", "+INFO lines of a '$' listing differ from the plain menu lines", inp,
                                           observed=infos[:6], required=menu[:6], replay=dict(rp, mark=mark))
+    finally:
+        tree.close()
+
+
+def _decompressed_items(ctx, res):
+    """Documents the decompressing handler generates (non-default configuration): the '+' prefix is the exact length of what
+    follows or the unknown-length marker, and a size in +VIEWS is the size of what is delivered — also for gzip files of several
+    members (cat a.gz b.gz), whose trailer describes the last member only."""
+    import gzip
+    tree = pyg.Tree()
+    try:
+        parts = [b"first member line\n" * 120, b"second member, longer\n" * 200, b"x" * 45]
+        docs = {"single.txt.gz": (gzip.compress(parts[0], mtime=0), parts[0]),
+                "multi.txt.gz": (b"".join(gzip.compress(p_, mtime=0) for p_ in parts), b"".join(parts)),
+                "logs/year.txt.gz": (gzip.compress(parts[1], mtime=0) + gzip.compress(parts[2], mtime=0), parts[1] + parts[2])}
+        for n, (z, _plain) in docs.items():
+            tree.write(n, z)
+        cfg = pyg.make_config(tree.root, pyg.FULL_HANDLERS, **{"handlers.dir.DirHandler|cachetime": "0",
+                                                               "handlers.file.CompressedFileHandler|decompressors": "{'gzip': 'zcat'}"})
+        for n, (_z, plain) in docs.items():
+            sel = "/" + n
+            for mark in ("+", "$"):
+                wpath = os.path.join(tree.tmp, "w.out")
+                with open(wpath, "wb", buffering=0) as wf:
+                    pyg.request(reqs.build("gopherp", sel, gplus=mark), cfg, wfile=wf)
+                out = open(wpath, "rb").read()
+                os.unlink(wpath)
+                res.evaluations += 1
+                k = out.find(b"\r\n")
+                hdr, body = out[:k], out[k + 2:]
+                inp = {"item": sel, "handlers": "full + decompressors", "request": mark, "members": 1 if n.startswith("single") else 2}
+                rp = {"virtual": True, "selector": sel, "handlers": "shipped"}
+                res.nontrivial.add(("decompressed", n, mark))
+                if body != plain:
+                    res.violation("C15:decompressed-body", "a decompressed document is not delivered as the decompressor's output", inp,
+                                  observed=(hdr, len(body)), required=len(plain), replay=rp)
+                if hdr != b"+-2" and hdr != b"+%d" % len(body):
+                    res.violation("C15:plus-length", "'+' response prefixed by a number that is not the length of what follows", inp,
+                                  observed=(hdr, len(body)), required="+<exact length> or +-2", replay=rp)
+            r = pyg.request(reqs.build("gopherp", sel, gplus="!"), cfg)
+            res.evaluations += 1
+            m = re.search(rb"\+VIEWS:\r\n [^:]*: ?(?:<(\d+)k>)?", r.out or b"")
+            if m and m.group(1) is not None and int(m.group(1)) != len(plain) // 1024:
+                res.violation("C15:views", "+VIEWS gives a size that is not the size of the document delivered", {"item": sel, "handlers": "full + decompressors"},
+                              observed=m.group(0)[:80], required="<%dk> or no size" % (len(plain) // 1024), replay={"virtual": True, "selector": sel, "handlers": "shipped"})
     finally:
         tree.close()
 
